@@ -47,20 +47,14 @@ Theorem C20_lblake2b_conforms : forall msg digln key,
 Proof. exact lblake2b_correct. Qed.
 Print Assumptions C20_lblake2b_conforms.
 
-(* argument checks.  Full statement (the documented domain: digest length 1..64, key up to 64 bytes; anything else
-   is an error): [lblake2b_rejects_full].  It is FALSE of the code today: `int digln = luaL_optinteger(...)` truncates
-   the Lua integer to a C int before the range test, so hasher.blake2b(m, 2^32+5) returns a 5-byte digest. *)
-Theorem C20_lblake2b_rejects_refuted : ~ lblake2b_rejects_full.
-Proof. exact lblake2b_rejects_refuted. Qed.
-Print Assumptions C20_lblake2b_rejects_refuted.
-
-(* restriction: digest lengths that fit a C int *)
-Theorem C20_lblake2b_rejects_partial : forall msg digln key,
-  -2147483648 <= digln < 2147483648 ->
+(* argument checks, full statement (the documented domain: digest length 1..64, key up to 64 bytes; every other
+   argument - any Lua integer, not only those that fit a C int - is an error).  True since the repair ede4fb9
+   (`lua_Integer digln`); the proof depends on the scraped declaration of digln, so a revert to `int digln` breaks it. *)
+Theorem C20_lblake2b_rejects : forall msg digln key,
   (64 < length key)%nat \/ digln < 1 \/ 64 < digln ->
   lblake2b msg digln key = LErrKeySize \/ lblake2b msg digln key = LErrDigestSize.
-Proof. exact lblake2b_rejects. Qed.
-Print Assumptions C20_lblake2b_rejects_partial.
+Proof. exact lblake2b_rejects_full_holds. Qed.
+Print Assumptions C20_lblake2b_rejects.
 
 (* hasher.blake2b(m) with the default digest length (scraped from luaL_optinteger's default) *)
 Theorem C20_lblake2b_default : forall msg, Forall is_byte msg ->
